@@ -26,7 +26,7 @@ TRUSTED = [
     "linked-but-not-yet-visible window of the two-step MPSC push only delays the detaching thread (it spins in os_mpsc_get_head / "
     "get_next) and is over-approximated by letting it proceed; submission of a continuation = the exchange on the target queue's "
     "dq_items_tail",
-    "kernel: futex_wait may return spuriously, FUTEX_WAKE wakes every sleeper on dg_gen; scheduler fairness for the liveness "
+    "kernel: futex_wait may return spuriously with any result except that a wait without timeout is never told ETIMEDOUT (Group.geffect at PSleep), FUTEX_WAKE wakes every sleeper on dg_gen; scheduler fairness for the liveness "
     "clauses (the theorems show that a wake-up / a detaching thread is always pending, not when it is scheduled); real time is not "
     "modelled: 'non-zero only after the timeout' is a statement about the Timeout choice in the model and is measured with the "
     "library's clock in the stress runs",
@@ -120,7 +120,7 @@ def analyse(text, label):
                          "wait_ret0_fast", "wait_ret0_slow", "wait_timeout", "wait_casw_retry", "wait_break_waiters_set",
                          "futex_wait", "futex_eintr", "futex_ewouldblock", "futex_timedout", "wait_deadline_already_passed",
                          "notify", "notify_first_pusher", "notify_behind", "notify_self_fire", "notify_casw_retry",
-                         "generations")}
+                         )}
     st["rounds"] = len(rounds)
     byround = {}
     endmark = {}
@@ -163,11 +163,13 @@ def analyse(text, label):
             st["events"] += len(tr)
             # ---------------- stamps for the oracle + statistics
             cur = None
+            call_idx = 0
             last_add_carry = None
             for i, e in enumerate(evs):
                 k = e.kind
                 if k == 100:
                     cur = (e.a, e.b, e.seq)
+                    call_idx = i
                     if e.a in (1, 5):
                         enter_call.append(e.seq)
                         st["enter"] += 1
@@ -185,6 +187,9 @@ def analyse(text, label):
                         leave_done.append(e.seq)
                     elif cur[0] == 3:
                         waits.append({"call": cur[2], "ret": e.seq, "tmo": cur[1], "rc": e.a, "reached": e.b, "thr": thr})
+                        if e.a == 0:      # returned 0 from the rmw loop (count seen at zero) or after the slow path
+                            slow = any(x.kind in (32, 1) and x.off == 4 for x in evs[call_idx:i])
+                            st["wait_ret0_slow" if slow else "wait_ret0_fast"] += 1
                     elif cur[0] == 4:
                         notifs.setdefault(cur[1], {})["call"] = cur[2]
                     cur = None
@@ -250,7 +255,6 @@ def analyse(text, label):
             return bisect.bisect_left(ec, x) - bisect.bisect_left(ld, x)
         for w in waits:
             if w["rc"] == 0:
-                st["wait_ret0_fast" if False else "wait_ret0_slow"] += 0
                 if min_over(lb_pts, w["call"], w["ret"], lb_at) > 0:
                     fails.append({"key": "%s:round%d:wait-zero-unsound:%d" % (label, rd, w["call"]), "label": label, "round": rd,
                                   "what": "dispatch_group_wait returned 0 (stamps %d..%d, thread %d) although at every moment of "
@@ -266,7 +270,6 @@ def analyse(text, label):
                     fails.append({"key": "%s:round%d:wait-nonzero-empty:%d" % (label, rd, w["call"]), "label": label, "round": rd,
                                   "what": "dispatch_group_wait returned non-zero (stamps %d..%d) although the group was provably "
                                           "empty during the whole call" % (w["call"], w["ret"])})
-        st["wait_ret0_slow"] += 0
         for nid, n in notifs.items():
             runs = nruns.get(nid, [])
             if len(runs) > 1:
